@@ -13,7 +13,7 @@ import (
 func init() {
 	register("C16", &propDef{
 		Title: "Pack output depends only on the tree and the options",
-		Rules: []func(*Checker){ruleC16Globals, rulePackerWriters("C16.packer"), ruleC16ProcState, ruleC16Readlink, ruleC16Nondet, ruleC16CleanRoot, ruleRootLink("C16.rootlink")},
+		Rules: []func(*Checker){ruleC16Globals, rulePackerWriters("C16.packer"), ruleC16ProcState, ruleC16Readlink, ruleC16Nondet, ruleC16CleanRoot, ruleRootLink("C16.rootlink"), ruleC16Spelled},
 		NotDecided: []string{
 			"equality of outputs across spellings of the source path (dot segments, trailing slash) — path algebra of filepath.Abs/Rel",
 			"the order in which filepath.Walk visits entries (library: lexical)",
@@ -656,4 +656,53 @@ func ruleRootLink(id string) func(*Checker) {
 		}
 		c.check(n > 0, id, p.FuncName(pack), "walk call", p.Pos(pack.Pos()), fmt.Sprintf("%d", n), "Pack no longer walks the source directory with filepath.Walk")
 	}
+}
+
+// C16.spelled — Pack examines its source argument as the caller spelled it.
+func ruleC16Spelled(c *Checker) {
+	const R = "C16.spelled"
+	c.rule(R, "Before Pack cleans its source argument (filepath.Clean turns \"\" into \".\", dir/missing/.. into dir and dir/file/ into dir/file), it hands the argument as given to os.Lstat and returns that error: otherwise a source that does not exist as spelled is silently replaced by another directory — the working directory, a parent — or a file is packed as an empty slug.", 1)
+	p := c.P
+	pk := p.Fn("slug", "Packer.Pack")
+	if pk == nil {
+		c.anchorMissing(R, "(*Packer).Pack")
+		return
+	}
+	var srcP *ssa.Parameter
+	for _, prm := range pk.Params {
+		if isStringType(prm.Type()) {
+			srcP = prm
+		}
+	}
+	if srcP == nil {
+		return
+	}
+	var clean ssa.Instruction
+	for _, ci := range callsTo(pk, func(o *types.Func) bool { return isFunc(o, "path/filepath", "Clean") || isFunc(o, "path/filepath", "Abs") }) {
+		if clean == nil {
+			clean = ci
+		}
+	}
+	if clean == nil {
+		c.pass(R, p.FuncName(pk), "source examined as spelled", p.Pos(pk.Pos()), "the source is never cleaned")
+		return
+	}
+	okS := false
+	for _, ci := range callsTo(pk, func(o *types.Func) bool { return isFunc(o, "os", "Lstat") || isFunc(o, "os", "Stat") }) {
+		cl, ok := ci.(*ssa.Call)
+		if !ok || canon(cl.Call.Args[0]) != ssa.Value(srcP) {
+			continue
+		}
+		_, errE := okEdgesOfCall(cl)
+		rej := false
+		for _, e := range errE {
+			if r, _ := returnsNonNilErrorFrom(e.To()); r {
+				rej = true
+			}
+		}
+		if rej && (dominates(cl, clean) || cl.Block() == clean.Block()) {
+			okS = true
+		}
+	}
+	c.check(okS, R, p.FuncName(pk), "source examined as spelled", p.Pos(clean.Pos()), "os.Lstat(src as given), error returned, before the first Clean", "the source argument is cleaned without having been examined as the caller spelled it: Pack(\"\") packs the working directory, Pack(\"dir/missing/..\") packs dir, Pack(\"dir/file/\") succeeds with an empty slug")
 }
